@@ -293,6 +293,25 @@ Section Model.
     mall_finite Op n X && fleb Op (sym_dev n X) tol_s && diag_pos n X
     && fleb Op (maxabs Op n X) bound && fleb Op (comm_dev n X A) tol_c && rayleigh_ok n X V bound.
 
+  (* C10, convergence report: a solver that says CONVERGED has met the CONFIGURED tolerance - both the error it returns and
+     |M - I|max recomputed from the coupled matrix M it returns.  One-sided: nothing is required of the other flags. *)
+  Definition conv_flag_checkb (n : nat) (M : mat F) (fl : cflag) (err tol : F) : bool :=
+    match fl with
+    | CONVERGED => fleb Op (err_to_id n M) tol && fleb Op err tol
+    | _ => true
+    end.
+
+  (* C10, eigen path for ANY requested root p/q (also the 50-bit numerators of Fraction(r / exponent_multiplier), for which X^p is
+     not computable): on every eigenpair (d_k, v_k) the oracle returned, X v_k = d_k^e v_k within tol * d_k^e, where d_k is the
+     shifted eigenvalue and e = expo p q the exponent of the REQUESTED root. *)
+  Definition eigpair_checkb (n : nat) (p : Z) (q : positive) (eps : F) (enh : bool) (L : vec F) (Q X : mat F) (tol : F) : bool :=
+    let e := expo p q in
+    forall_lt n (fun k =>
+      let mu := fpow Op (eigen_shifted n L eps enh k) e in
+      let v := vmemo Op n (mcol Q k) in
+      let w := mvec Op n X v in
+      forall_lt n (fun i => fleb Op (fabs Op (w i - mu * v i)) (tol * mu))).
+
   (* C10: the defining equation of the inverse p/q-th root holds within tol *)
   Definition C10_checkb (n p q : nat) (A : mat F) (eps : F) (X : mat F) (tol tol_s : F) : bool :=
     mall_finite Op n X && fleb Op (sym_dev n X) tol_s && fleb Op (root_residual n p q A eps X) tol.
